@@ -141,11 +141,8 @@ func Sub(fs FS, dir string) (FS, error) {
 	if fs, ok := fs.(SubFS); ok {
 		return fs.Sub(dir)
 	}
-	if fs, ok := fs.(MountFS); ok {
-		mountFS, subPath := fs.Mount(dir)
-		fs, err := Sub(mountFS, subPath)
-		return fs, stripErrPathPrefix(err, dir, subPath)
-	}
+	// A MountFS is wrapped like any other FS: names below dir may resolve to other mounts than dir itself,
+	// so the view must route every name through fs.
 	return newSubFS(fs, dir)
 }
 
